@@ -165,6 +165,17 @@ CHECKS = {
         'Trusts: the type-directed walk that decides which mappings are class mappings; name-based structural '
         'equality across two builds of a model. Extras are compared unordered under key permutation only.',
         'DESIGN.md 3 C13'),
+    'C18': (
+        'exhaustive enumeration of (class model x document x sharing of equal sub-trees) and of every cycle; the aliased '
+        'and the expanded document are both loaded with the real load function and the outcomes compared',
+        'For every (model, valid or invalid document) pair of the catalogue plus models in which one node sits at two '
+        'differently typed positions, seasoned classes with non-idempotent savorize and hierarchies: every pair (thorough: '
+        'triple) of structurally equal sub-trees at disjoint positions, keys included, and the maximal sharing, is serialised '
+        'with anchors and aliases (composed back, node identity verified) and must give the outcome of the expanded document; '
+        'every collection node placed at each of its own descendant positions must be rejected with an error that is not '
+        'RecursionError.',
+        'Trusts: PyYAML\'s serializer to emit the anchors (verified by composing back); structural equality of generated classes.',
+        'DESIGN.md 3 C18'),
 }
 
 NOT_BUILT = {}
